@@ -289,11 +289,13 @@ namespace sqf::runtime
                 case behavior::result::replace_self_seek_start:
                     m_exit_behavior = m_exit_behavior->get_behavior();
                     seek(0, ::sqf::runtime::frame::seekpos::start);
+                    scope_name({}); // a frame that starts over is a new scope
                     clear_values_helper(runtime);
                     if (m_instruction_set.empty()) { return result::restarted; }
                     goto start; // do not call here, reuse current stack
                 case behavior::result::seek_start:
                     seek(0, ::sqf::runtime::frame::seekpos::start);
+                    scope_name({}); // a frame that starts over is a new scope
                     clear_values_helper(runtime);
                     if (m_instruction_set.empty()) { return result::restarted; }
                     goto start; // do not call here, reuse current stack
